@@ -475,6 +475,13 @@ def read_header(file_like: typing.BinaryIO, prefix: bytes) -> HeaderInfo:
     version = tuple(file_like.read(2))
 
     header_len = struct.unpack('<I', file_like.read(4))[0]
-    data = json.loads(file_like.read(header_len).decode('ascii'))
+    header_bytes = file_like.read(header_len)
+    while len(header_bytes) < header_len:
+        # a raw stream may return fewer bytes than requested: everything after the header would be misaligned
+        more = file_like.read(header_len - len(header_bytes))
+        if not more:
+            break
+        header_bytes += more
+    data = json.loads(header_bytes.decode('ascii'))
 
     return HeaderInfo(data, version)
